@@ -30,6 +30,9 @@ def load_known():
     return json.load(open(KNOWN_FILE))["findings"]
 
 
+MIXED_PROPERTIES = {"C13", "C14", "C15", "C16", "C18"}
+
+
 def callees(q):
     """Contracted functions syntactically called from the body of q (current /repo source)."""
     import ast as _ast
@@ -49,6 +52,9 @@ def callees(q):
             cands = (f"{mod}.{name}", f"api.{name}") if isinstance(f, _ast.Name) else (f"api.Converter.{name}", f"api.Record.{name}")
             if isinstance(f, _ast.Name) and (name == "Converter" or (name == "cls" and cls == "Converter")):
                 cands = ("api.Converter.__init__",)      # constructor call: the caller's proof uses the contract of __init__
+            if isinstance(f, _ast.Name) and name == "Record":
+                # Record(...): the constructor model takes its rejection condition from the contracts of the field validators
+                cands = ("api.Record.prefix_not_in_synonyms", "api.Record.uri_prefix_not_in_synonyms")
             for cand in cands:
                 if cand in spec.CONTRACTS and cand != q:
                     out.add(cand)
@@ -346,6 +352,10 @@ def run_property(prop, tier, seed):
     n_declared_bounded = sum(1 for it in ev_items if it.get("bounded_only"))
     # `proof` only when every item that is not a declared bounded stand-in was discharged completely
     level = "proof" if (total_obl > 0 and total_dis == total_obl and n_proved == len(ev_items) - n_declared_bounded) else "other"
+    if prop in MIXED_PROPERTIES:
+        # clauses of these statements rest on third-party code (json / rdflib / pydantic models / pandas / csv / Flask) and are
+        # decided by declared bounded lemmas only: never reported as proof, however many kernels are proved
+        level = "other"
     cov = {
         "obligations": total_obl,
         "discharged": total_dis,
